@@ -370,7 +370,7 @@ def run(rec, shard, nshards, t):
     gen = R.RuleGen(rnd)
     tmp = tempfile.mkdtemp(prefix='vt-c17-')
     try:
-        n = (300 if t == 'quick' else 10000) // nshards
+        n = (300 if t == 'quick' else 40000) // nshards
         for i in range(n):
             rf = gen.rule_file(nrules=rnd.randint(1, 7))
             judge_merchants(rec, rf, rnd, 12, 10)
